@@ -77,6 +77,21 @@ Proof.
   destruct u as [ | u]; cbn; [reflexivity | apply IH; lia].
 Qed.
 
+Lemma no_swallow_safe : forall deps, no_swallow deps -> swallow_safe deps.
+Proof.
+  intros deps H u v Hin. specialize (H u v true Hin). discriminate.
+Qed.
+
+(* when no request discards a circular error the result is schedule independent *)
+Theorem confluent_no_discard : forall deps T1 td1 T2 td2 s1 s2, wf_deps deps -> no_swallow deps ->
+  todo_ok (length deps) td1 -> todo_ok (length deps) td2 ->
+  reach deps false (init_todo (length deps) T1 td1) s1 ->
+  reach deps false (init_todo (length deps) T2 td2) s2 ->
+  final s1 = true -> final s2 = true -> locks s1 = locks s2.
+Proof.
+  intros deps T1 td1 T2 td2 s1 s2 Hwf Hns. apply confluent_cyclic; [exact Hwf | apply no_swallow_safe; exact Hns].
+Qed.
+
 (* acyclic request graphs: every unit ends without circular error *)
 Theorem confluent_acyclic : forall deps T td s, wf_deps deps -> acyclic_deps deps ->
   todo_ok (length deps) td -> reach deps false (init_todo (length deps) T td) s -> final s = true ->
@@ -148,7 +163,7 @@ Qed.
 
 (* F16: a discarded circular error on a cycle makes the result depend on the order in which one
    worker takes the units: a first gives (None, Some 0), b first gives (None, None) *)
-Theorem confluent_swallow_refuted :
+Theorem order_dependent_refuted :
   exists s1 s2, reach depsF16 false (init 2 1) s1 /\ reach depsF16 false (init 2 1) s2 /\
                 final s1 = true /\ final s2 = true /\
                 locks s1 = [Done None; Done (Some 0)] /\ locks s2 = [Done None; Done None].
